@@ -70,6 +70,7 @@ class Flow(object):
         self.scope = scope
         self._names = []  # type: list[Name]
         self.parents = parents or []  # type: t.MutableSequence[Flow | LoopFlow]
+        self._closes = None  # type: LoopFlow | None
 
     def __repr__(self):
         # type: () -> str
@@ -90,6 +91,11 @@ class Flow(object):
     @property
     def names(self):
         # type: () -> t.Mapping[str, Name | MultiName]
+        closes = self._closes
+        if closes is not None and not closes._resolving:
+            # one more pass through a loop body adds nothing at its end: the
+            # names of the flow closing a loop are those the resolution found
+            return closes.names  # type: ignore[return-value]
         return loop_memo(self.scope.top, (self, 'names'), self._get_names)
 
     def _get_names(self):
@@ -158,11 +164,12 @@ class Flow(object):
 
 
 def loop_memo(top, key, func):
-    """Memoize func() for key. A value computed while some loop is being
-    resolved and which depends on that (unresolved) loop is valid only
-    until the resolution ends: keep it in the resolution-local memo."""
+    """Memoize func() for key. A value computed while some loops are being
+    resolved and which depends on them (it met them unresolved) is valid only
+    as long as all of them are still being resolved: keep it in the memo layer
+    of the innermost of them, which is dropped when that resolution ends."""
     memo = top._loop_memo
-    for m in (memo[0], memo[-1]):
+    for m in memo:
         try:
             value, deps = m[key]
         except KeyError:
@@ -176,7 +183,12 @@ def loop_memo(top, key, func):
     finally:
         deps = top._loop_deps.pop()
     top._loop_deps[-1].update(deps)
-    memo[-1 if deps else 0][key] = value, deps
+    stack = top._loop_stack
+    try:
+        layer = max([stack.index(l) for l in deps] or [0])
+    except ValueError:
+        return value
+    memo[layer][key] = value, deps
     return value
 
 
@@ -187,6 +199,7 @@ class LoopFlow(object):
     def __init__(self, parent):
         # type: (Flow) -> None
         self.parent = parent
+        parent._closes = self
         self._resolving = False
 
     @property
@@ -203,9 +216,11 @@ class LoopFlow(object):
         top = self.parent.scope.top
         self._resolving = True
         top._loop_memo.append({})
+        top._loop_stack.append(self)
         try:
             return self.parent.names
         finally:
+            top._loop_stack.pop()
             top._loop_memo.pop()
             top._loop_deps[-1].discard(self)
             self._resolving = False
@@ -233,6 +248,7 @@ class SourceScope(Scope):
         self._global_names = {}
         self._nonlocal_names = []
         self._loop_memo = [{}]
+        self._loop_stack = [None]  # type: list[t.Any]
         self._loop_deps = [set()]
 
     def __repr__(self):
